@@ -77,3 +77,21 @@ Definition spec_hcall (h : handle) (occ : occupant) (r : req) (k : kernel) : opt
       end
     else None
   end.
+
+(* ------------------------------------------------ who is calling does not matter *)
+(* The kernel resolves a pid argument of 0 to the CALLING process.  psutil always passes the
+   handle's pid ([h_pid], never 0 for a real process), so a call through a handle acts on that
+   pid whoever the caller is -- e.g. a child forked after the handle was created for the parent's
+   own pid.  [hcall_as caller] is the call as issued by the process [caller]. *)
+Definition resolve (caller pid : Z) : Z := if pid =? 0 then caller else pid.
+Definition hcall_as (caller : Z) (h : handle) (occ : occupant) (r : req) (k : kernel) :=
+  hcall (with_flags (h_gone h) (h_reused h)
+           {| h_class := h_class h; h_pid := resolve caller (h_pid h); h_ident := h_ident h;
+              h_gone := h_gone h; h_reused := h_reused h; h_reaped := h_reaped h |}) occ r k.
+(* NOT the code: a handle that remembers "I was created for my own process" and then lets the
+   kernel pick the calling process (pid 0 / getrlimit / getpriority(0) ...) *)
+Definition hcall_own_shortcut (caller : Z) (created_for_self : bool) (h : handle) (occ : occupant) (r : req) (k : kernel) :=
+  hcall_as caller (if created_for_self
+                   then {| h_class := h_class h; h_pid := 0; h_ident := h_ident h; h_gone := h_gone h;
+                           h_reused := h_reused h; h_reaped := h_reaped h |}
+                   else h) occ r k.
